@@ -6,5 +6,6 @@ CONSTANTS
   Fams = {"tabfn"}
   LB = 1
   LM = 1
+  Wide = {}
   Stepwise = TRUE
 INVARIANT BodyStable
